@@ -173,6 +173,13 @@ def check(repo, tier):
                             word.append(None)
                             continue
                         word.append((info[0], gen_structure(info[1]), ks[0]))
+                    if not word and ch:
+                        # every propagator application is skipped on this path by tests the analysis explores both ways (tolerance comparisons with the identity, ...):
+                        # such a test does not establish that the propagator IS the identity
+                        run.oblige('D1', (entry, scen, tuple(ch), 'applied'), False)
+                        run.add(F(entry, 'D1', 'propagators skipped', f'{scen}: on the path with test outcomes {ch} no propagator is applied to the state at all (applications are skipped by a '
+                                  f'data-dependent test, e.g. a tolerance comparison with the identity, which does not make them the identity)'))
+                        continue
                     if None in word or not word:
                         raise AnalysisError(f'{scen}: ' + ('no application of a matrix exponential to the state was found' if not word else
                                                            'a propagator applied by a stage is not recognisably exp(coefficient * step_size * generator)'))
@@ -264,6 +271,18 @@ def check(repo, tier):
                         run.oblige('D4', (entry, scen, 'normalised'), good)
                         if not good:
                             run.add(F(entry, 'D4', 'normalisation', f'{scen}: the returned state is not divided by its {"Manhattan (p=1)" if nz == 1 else "Euclidean (p=2)"} norm (found {sorted(kinds) or "no norm"})'))
+                        # ... and nothing truncates the state after the normalisation: a factor of a decomposition that is cut (rank cap / threshold) and whose
+                        # input was already divided by the norm makes the returned state shorter than 1 (first step: every norm among the ancestors is this step's)
+                        late = []
+                        for a_ in A.ancestors(list(res[1]._attrs['cores'])).values():
+                            pv = a_.tags.get('prov')
+                            if isinstance(pv, dict) and 'svd' in pv and 'sel' in pv and isinstance(pv.get('of'), Arr):
+                                if any(b_.ndim == 0 and b_.origin in ('norm', 'amax') for b_ in A.ancestors([pv['of']]).values()):
+                                    late.append(pv['svd'])
+                        run.oblige('D4', (entry, scen, 'normalised last'), not late)
+                        if late:
+                            run.add(F(entry, 'D4', 'normalisation before truncation', f'{scen}: {len(set(late))} truncated decomposition(s) are applied to the state after it has been divided by its '
+                                      f'norm: what the cut removes is missing from the norm of the returned state'))
                     # dtype: a complex propagator applied to a real state must not be written into a real core
                     for e in sc.events('complex-loss'):
                         where, cons, f, ln = l2rules.ev_where(repo, e, mods)
